@@ -346,6 +346,13 @@ def mixed_arg_strings():
             for t in tails:
                 yield '\\' + N.x + ''.join(gs) + t
                 yield '$\\' + N.x + ''.join(gs) + t + '$'
+    # the four fixed-signature commands with their mandatory arguments brace-delimited, followed by further groups
+    # and a tail: counts that are exhausted must stay exhausted (nothing after the signature is swallowed or invented)
+    for name, req in (('def', 2), ('textbf', 1), ('section', 1), ('label', 1)):
+        for k in range(req, req + 3):
+            for gs in itertools.product(groups, repeat=k):
+                for t in ('', N.a, ' ' + N.a, '\n' + N.a, '\\' + N.y, '\n\n' + N.a):
+                    yield '\\' + name + ''.join(gs) + t
 
 
 # ---------------------------------------------------------------------------------------------
